@@ -94,6 +94,8 @@ def run_property(prop, tier, seed):
         ex = explore(prop, tier, seed, count, profiles, "main")
         if prop in special.CROSS_ENTRY:
             special.cross_entry(prop, tier, seed, count, profiles, ex)
+        if prop in special.ES_ORACLE:
+            special.es_oracle(prop, tier, seed, count, profiles, ex)
     D.log(f"[{prop}] explored {ex['evaluations']} cases in {time.time() - t0:.0f}s: corr_fail={len(ex['corr_fail'])} "
           f"spec_fail={len(ex['spec_fail'])} errors={len(ex['errors'])}")
     if ex["errors"]:
@@ -159,6 +161,8 @@ def run_property(prop, tier, seed):
         },
         "assumptions": D.TRUSTED_BASE, "wall_s": round(wall, 1), "violations": violations,
     }
+    if ex.get("notes"):
+        evidence["coverage"]["notes"] = ex["notes"]
     if tie_broken:
         evidence["coverage"]["tie_broken"] = [t["what"] for t in tie_broken]
     D.write_json(os.path.join(D.VERIF, "evidence", f"{prop}.json"), evidence)
